@@ -54,6 +54,9 @@ func (ex *Exec) lockOp(m Val, op string) {
 }
 
 func (ex *Exec) trackObject(v Val) {
+	if itf, isI := v.(Iface); isI {
+		v = itf.V
+	}
 	p, ok := v.(*Val)
 	if !ok || p == nil {
 		panic(inconclusive{"Track needs a non-nil pointer to a struct"})
